@@ -42,7 +42,7 @@ prop("C05",
      COMMON_ASSUMPTIONS)
 
 prop("C02",
-     ["OW1", "OW2", "HD1", "RJ1", "OW4", "IN1"],
+     ["OW1", "OW2", "HD1", "RJ1", "OW4", "IN1", "PV1"],
      "The inheritance mechanism is a sharing discipline: object lists and segment objects are shared between segments. Decided: "
      "(OW1) every store to a segment object's slots goes through an object created in the same activation (alias analysis; who-may-write), "
      "(OW2) typestate of self.ordered_objects: mutated only after a fresh copy, helpers called only from the parser, shared index "
@@ -83,7 +83,7 @@ prop("C08",
      COMMON_ASSUMPTIONS)
 
 prop("C01",
-     ["TD1", "BL1", "BL2", "BL3", "PR1", "GR1", "UD1", "OW4", "NK2"],
+     ["TD1", "BL1", "BL2", "BL3", "PR1", "GR1", "UD1", "OW4", "NK2", "PV1"],
      "Type x layout dispatch exhaustiveness over the 17 admitted channel types and every decoder branch; every fixed-size record "
      "unpacked with a format of exactly the size read; type-table consistency; byte-order threading; insertion-ordered containers "
      "filled in file order with last-value-wins properties and once-per-segment updates; groups never replaced during the object "
@@ -93,7 +93,7 @@ prop("C01",
      COMMON_ASSUMPTIONS)
 
 prop("C03",
-     ["MP1", "MP3", "TS1", "OFS1", "LN1", "BL3", "BL4", "CE1", "IN1"],
+     ["MP1", "MP3", "TS1", "OFS1", "LN1", "BL3", "BL4", "CE1", "IN1", "SZ1"],
      "One timestamp-representation switch on every reader->user path; scaling applied exactly once by scaled accessors and never by raw "
      "ones, sibling three-way decisions agree; a channel without data type never reaches the reader in eager mode; chunk offsets are "
      "snapshots of the running count; one funnel for value counts; byte order and timestamp layout threaded on every decoder path; "
@@ -121,7 +121,7 @@ prop("C09",
      COMMON_ASSUMPTIONS)
 
 prop("C10",
-     ["KC1", "TD2", "TS1", "BL4", "BL5", "BL6", "TW1"],
+     ["KC1", "TD2", "TS1", "BL4", "BL5", "BL6", "TW1", "DTA"],
      "Call-site constants and role pairing of defragment (raw timestamps, raw data, names/properties of the same object, unfiltered loop "
      "nest with every group and channel written), writer dispatch totality for every type the writer can choose (Void excluded from size "
      "arithmetic), no-type channels never reach the closed reader, raw timestamp layout, declared sizes equal written sizes, faithful index twin, "
@@ -176,7 +176,7 @@ prop("C18",
                            "inverse(forward(T)) consistency report at vendoring time"])
 
 prop("C11",
-     ["BL1", "BL2", "BL3", "TD1", "SR1", "TR1", "DL1", "SB1"],
+     ["BL1", "BL2", "BL3", "TD1", "SR1", "TR1", "DL1", "SB1", "SZ1"],
      "The agreements the DAQmx index arithmetic rests on: record sizes vs formats, scaler type-code table, byte order threaded through "
      "every DAQmx parse site and decoder, sibling interface of the scaler classes and agreement of the three header sets, (length, width) "
      "role flow from get_buffer_dimensions into reads and seeks, scaler values = byte columns [offset, offset+size) of their own buffer, "
